@@ -1,5 +1,6 @@
 """PIPE — auxiliary check (not one of the 20 properties): the unified pipeline model against the real execute().
-`./check PIPE --tier quick` builds Props/Pipeline.lean, audits its theorems and runs harness/pipeline.py on its own;
+`./check PIPE --tier quick` builds Props/Pipeline.lean and Props/Pipeline3.lean (instants, probability), audits their theorems and runs
+harness/pipeline.py on its own;
 the property checks C06 / C01 / C02 / C12 call the same library."""
 import pipeline
 
